@@ -619,6 +619,13 @@ func newParser(input string) *parser {
 func ParsePipeline(name, input string) (res ast.Stmts, err error) {
 	p := newParser(input)
 	defer parserPool.Put(p)
+	defer func() {
+		// a constructor that already recorded a (positioned) syntax error returns a nil
+		// node, which a later constructor may dereference: report the recorded error
+		if err == errUnexpected && len(p.errs) != 0 {
+			err = conv2PlError(name, p.errs, &p.posCache)
+		}
+	}()
 	defer p.recover(&err)
 
 	p.InjectItem(START_STMTS)
